@@ -162,7 +162,7 @@ prop("C34",
 
 
 prop("C23",
-     units=["errnames", "lexerr", "fntables", "errprint"],
+     units=["errnames", "lexerr", "fntables", "errprint", "lexnum"],
      level="proof",
      claim="for EVERY built-in function (all rows, whatever their number) the field whose content Function::to_localized_name prints is, in Functions::lookup's first-match "
            "if-chain (the expansion of impl_function_lookup!), mapped back to that same function: lookup_variant(name_field(v)) == v, decided by Verus's `by (compute)` over "
